@@ -183,7 +183,7 @@ class HS(Optimizer):
         """
 
         # Calculates a random index
-        i = int(r.generate_uniform_random_number(0, len(agents)))
+        i = int(r.generate_uniform_random_number(0, len(agents))[0])
 
         # Generates a new harmony
         agent = self._generate_new_harmony(agents[i])
